@@ -45,9 +45,16 @@ StateOK(p, cl, lv, st) ==
 StateCases == {[fam |-> "hostile", proto |-> p, limit |-> 65536, class |-> cl, lenval |-> lv, variant |-> 1, sess |-> st, expect |-> "robust"] :
                  p \in Protos, cl \in StateClasses, lv \in {"-", "0", "limit+1", "2^32-1"}, st \in SessStates}
 StateSel == {x \in StateCases : StateOK(x.proto, x.class, x.lenval, x.sess)}
+\* well-formed CALL / PUSH frames (registered and unregistered routes) whose body -- and a metadata value -- is hostile for whoever
+\* has to RENDER it: a serving peer that prints message details (PrintDetail, logger level DEBUG).  The body classes: plain,
+\* multi-byte runes, a rune cut after 1 / 2 / 3 bytes at the very end, invalid UTF-8, U+2028 / U+2029, quotes / backslashes /
+\* control bytes, empty, long random.
+LoggedBodies == {"ascii", "utf8", "trunc1", "trunc2", "trunc4", "invalid", "linesep", "control", "empty", "long", "random"}
+Logged == {[fam |-> "hostile", proto |-> p, limit |-> 65536, class |-> "logged", lenval |-> b, variant |-> 1, expect |-> "robust"] :
+             p \in {"raw", "json", "pb"}, b \in LoggedBodies}
 VARIABLES c, done
 vars == <<c, done>>
-Init == c \in Cases \cup ReplyBodies \cup StateSel /\ done = FALSE
+Init == c \in Cases \cup ReplyBodies \cup StateSel \cup Logged /\ done = FALSE
 Run == ~done /\ done' = TRUE /\ UNCHANGED c
 Spec == Init /\ [][Run]_vars
 OracleSane == c.expect = "robust"
